@@ -102,6 +102,7 @@ type ecPlan struct {
 	reissue      bool
 	refresh      bool
 	sweep        bool
+	logout       bool
 	nsteps       int
 	stepKinds    []string
 	ncook        int
@@ -121,6 +122,7 @@ type ecEnv struct {
 	except     []string
 	useNext    bool
 	keyChange  bool
+	dirtyErr   bool // the wrapped Decryptor hands back text next to its error (a caller must not use it)
 	faults     bool
 	yields     bool
 	sleepPm    int
@@ -247,11 +249,19 @@ func (env *ecEnv) decrypt(v, k string) (string, error) {
 			op.decFailed[strings.Clone(v)] = true
 		}
 		s.Logf("Decryptor call %d fails (injected)", n)
+		if env.dirtyErr {
+			return "partial-" + strconv.Itoa(n), harness.ErrInjected
+		}
 		return "", harness.ErrInjected
 	}
 	out, err := encryptcookie.DecryptCookie(v, k)
 	if env.yields {
 		simrt.Yield(2004) // other requests may run between the Decryptor's return and the use of its result
+	}
+	if err != nil && env.dirtyErr {
+		// verify-then-report style: what was decoded so far comes back with the error
+		out = "rejected-" + strconv.Itoa(n)
+		s.Count("probe_decryptor_error_with_text")
 	}
 	return out, err
 }
@@ -298,6 +308,14 @@ func (env *ecEnv) mkApp(k string, wrap bool) *fiber.App {
 			c.Cookie(&fiber.Cookie{Name: ck.name, Value: c.Cookies(ck.name), Path: "/", HTTPOnly: ck.httpOnly, MaxAge: ck.maxAge})
 		}
 		return c.SendString("refreshed")
+	})
+	// the cookies are sent once more with their value and an expiry in the past (one way of logging out)
+	app.Post("/logout", func(c fiber.Ctx) error {
+		op := env.ops[atoi(c.Get("X-Op"))]
+		for i, ck := range op.sets {
+			c.Cookie(&fiber.Cookie{Name: ck.name, Value: op.vals[i], Path: "/", HTTPOnly: ck.httpOnly, Expires: time.Now().Add(-24 * time.Hour)})
+		}
+		return c.SendString("bye")
 	})
 	app.Get("/get", func(c fiber.Ctx) error {
 		op := env.ops[atoi(c.Get("X-Op"))]
@@ -631,6 +649,20 @@ func (cl *ecClient) run() {
 	if env.keyChange {
 		if cl.issue(&cl.connOld, cl.cookies, false, false, "issue under the old key") {
 			s.Count("fault_issued_before_key_change")
+			if s.Chance(600) {
+				// the old server has read them itself before it was replaced
+				op := &ecOp{}
+				resp := cl.do(&cl.connOld, b, "GET", "/get", op)
+				if cl.dead {
+					return
+				}
+				for _, c := range cl.cookies {
+					if snt, _ := b.Get(c.name); resp.ReadErr == nil && op.seen != nil && op.seen[c.name] != c.plain {
+						s.Fail("C20.roundtrip", "%sunder the old key: cookie %s (%s, %d bytes) was returned as issued, the handler saw %s", cl.tag, c.name, c.kind, len(c.plain), cl.class(op.seen[c.name], snt))
+					}
+				}
+				s.Count("probe_old_server_read_its_cookies_before_key_change")
+			}
 			t := map[string]bool{}
 			for _, c := range cl.cookies {
 				t[c.name] = true
@@ -787,6 +819,20 @@ func (cl *ecClient) run() {
 			cl.look(label, kind, touched)
 		}
 	}
+	// ---- logout: value and a past expiry in one Set-Cookie; still nothing but ciphertext on the wire ----
+	if cl.plan.logout && !s.Failed() && !cl.dead {
+		op := cl.setAll(cl.cookies, false)
+		op.path = "/logout"
+		resp := cl.do(&cl.connCur, b, "POST", "/logout", op)
+		if cl.dead {
+			return
+		}
+		if !op.encFailed && resp.ReadErr == nil {
+			cl.wire(resp, cl.cookies, cl.tag+"logout (cookies re-sent with an expiry in the past)")
+			s.Count("probe_cookie_set_with_past_expiry")
+		}
+		return
+	}
 	// ---- sweep: every position and every length of one short issued value ----
 	if cl.plan.sweep && !s.Failed() && !cl.dead {
 		var c *ecCookie
@@ -835,7 +881,7 @@ func enccookieMain(s *simrt.Sim, info *harness.RunInfo) {
 	keyLen := simrt.PickS(s, 32, 16, 24)
 	env.otherLen = simrt.PickS(s, 32, 16, 24)
 	oldLen := simrt.PickS(s, 32, 16, 24)
-	env.keyChange = faults && s.Chance(250)
+	env.keyChange = (faults && s.Chance(250)) || (!faults && s.Chance(150))
 	concurrent := s.Chance(350)
 	nclients := 1
 	if concurrent {
@@ -856,6 +902,7 @@ func enccookieMain(s *simrt.Sim, info *harness.RunInfo) {
 	}
 	wrapped := concurrent || encFault || decFault || s.Chance(250)
 	env.yields = concurrent || (wrapped && s.Chance(300))
+	env.dirtyErr = wrapped && s.Chance(400)
 	exceptAny := s.Chance(400)
 	env.useNext = s.Chance(300)
 	plans := make([]ecPlan, nclients)
@@ -865,6 +912,7 @@ func enccookieMain(s *simrt.Sim, info *harness.RunInfo) {
 		p.reissue = s.Chance(300)
 		p.refresh = s.Chance(300)
 		p.sweep = faults && s.Chance(120)
+		p.logout = !p.sweep && s.Chance(150)
 		p.nsteps = s.Range(1, 6)
 		for j := 0; j < 6; j++ {
 			p.stepKinds = append(p.stepKinds, simrt.PickS(s, "substitute", "truncate", "extend", "foreign-key", "forge", "swap", "replay", "substitute", "truncate"))
